@@ -433,6 +433,78 @@ def rule_r12(chk, facts):
         raise AnalysisBroken('store to ParIter not found in ExpandIRPN')
 
 
+def rule_r15(chk, facts):
+    chk.rule('C03-R15', 'no function of the assembler core or of the tools contains a cycle in its control flow graph whose '
+             'blocks evaluate conditions only (no assignment, no ++/--, no call): once entered, nothing the cycle does can '
+             'change the conditions that keep it going (a "goto" back to a label in front of the statement that jumps)',
+             min_instances=1)
+    seen = set()
+    n = 0
+    for exe in ('asl', 'plist', 'pbind', 'p2bin', 'p2hex', 'alink', 'dasl'):
+        P = facts.program(exe)
+        for f in P.all_funcs():
+            if f.qname in seen or f.entry is None:
+                continue
+            seen.add(f.qname)
+            succ = f.succs()
+            # Tarjan SCC
+            index, low, onst, st, comps = {}, {}, set(), [], []
+            sys_stack = [(f.entry, iter([t for t, l in succ.get(f.entry, ())]))]
+            index[f.entry] = low[f.entry] = 0
+            cnt = 1
+            st.append(f.entry)
+            onst.add(f.entry)
+            while sys_stack:
+                v, it = sys_stack[-1]
+                adv = False
+                for w in it:
+                    if w is None or w < 0:
+                        continue
+                    if w not in index:
+                        index[w] = low[w] = cnt
+                        cnt += 1
+                        st.append(w)
+                        onst.add(w)
+                        sys_stack.append((w, iter([t for t, l in succ.get(w, ())])))
+                        adv = True
+                        break
+                    elif w in onst:
+                        low[v] = min(low[v], index[w])
+                if adv:
+                    continue
+                sys_stack.pop()
+                if sys_stack:
+                    u_ = sys_stack[-1][0]
+                    low[u_] = min(low[u_], low[v])
+                if low[v] == index[v]:
+                    comp = []
+                    while True:
+                        w = st.pop()
+                        onst.discard(w)
+                        comp.append(w)
+                        if w == v:
+                            break
+                    comps.append(comp)
+            for comp in comps:
+                cs = set(comp)
+                if len(comp) == 1 and not any(t in cs for t, l in succ.get(comp[0], ())):
+                    continue
+                n += 1
+                effect = any((is_assign(m) or is_incdec(m) or m[0] == 'call' or m[0] in ('decl',))
+                             for bb in comp for ln, ex in f.blocks[bb]['elems'] for m in walk_own(ex))
+                if effect:
+                    continue
+                ln = min([e[0] for bb in comp for e in f.blocks[bb]['elems']] or [0])
+                chk.ob('C03-R15', '%s:%s:effect-free-cycle@%d' % (f.unit.name, f.name, ln), False, f.loc(ln),
+                       'the blocks %s form a cycle that only evaluates conditions: entered once, it never ends' %
+                       ' '.join('B%d' % x for x in sorted(comp)))
+    # every cycle with an effect is one held instance (reported in bulk)
+    chk.ob('C03-R15', 'all-other-cycles', True, '', '%d cycles examined' % n)
+    chk.extra['cfg_cycles'] = n
+    if n < 400:
+        raise AnalysisBroken('only %d control flow cycles found' % n)
+
+
 def rule_r14(chk, facts):
     chk.rule('C03-R14', 'a copy loop whose remaining count is reduced by the number of bytes fread() returned leaves the loop '
              'when fread() returns less than requested: at end of file fread() keeps returning 0, the count no longer '
@@ -513,6 +585,7 @@ def run(chk, facts, info):
     rule_r11(chk, facts)
     rule_r12(chk, facts)
     rule_r14(chk, facts)
+    rule_r15(chk, facts)
     chk.rule('C03-R13', 'in p2bin, p2hex, alink and dasl every ChkIO() call stands directly under a failure test of the '
              'operation it checks or is preceded on every path by errno = 0: a well-formed input is not rejected with '
              'an I/O error because of a stale errno', min_instances=100)
